@@ -25,7 +25,8 @@ from hvsim.writers import vmdk as WV
 
 STEP_LIMIT = 600_000
 KINDS = ["qcow2", "qcow2", "vhdx", "vhdx", "vmdk", "vmdk", "vhd", "vdi", "hdd"]
-WORDS = ["disk", "Ünïcode", "with space", "日本語", "a", "x" * 40, "snap-01", "über disk", "päth/sub", "Q", "emoji📀"]
+WORDS = ["disk", "Ünïcode", "with space", "日本語", "a", "x" * 40, "snap-01", "über disk", "päth/sub", "Q", "emoji📀",
+         "clone #3 of base", "line\u2028sep", "nel\u0085x", "ff\x0cvt\x0bx", "semi;colon:and,comma", "percent%41"]
 
 
 def _word(rng, maxlen=60):
@@ -94,6 +95,8 @@ def gen_case(seed: int, prop: str, tier: str) -> dict:
                                "ddb.geometry.sectors", "ddb.uuid", "ddb.longContentID", "ddb.toolsVersion", "ddb.comment",
                                "ddb.thinProvisioned"], rng.randint(0, 7)):
             ddb[key] = rng.choice([str(rng.randrange(100000)), "lsilogic", "60 00 C2 9c 3a 7f-aa bb", _word(rng), "a=b", "x" * 100])
+        if rng.random() < 0.3:
+            ddb["ddb.comment"] = rng.choice(["clone #3 of base", "a # b", "x\u2028y", "tab\tinside"])
         case.update(cfg=cfg, vk=k, ddb=ddb, cid="%08x" % rng.getrandbits(32), ctype=rng.choice(["monolithicSparse", "streamOptimized", "twoGbMaxExtentSparse", "vmfs"]),
                     style=rng.getrandbits(2), names=[_word(rng, 30).replace("/", "_") + "-s%03d.vmdk" % (j + 1) for j in range(rng.choice([1, 2, 3]))],
                     open=rng.choice(["path", "handle"]))
@@ -112,7 +115,7 @@ def gen_case(seed: int, prop: str, tier: str) -> dict:
             cfgs.append(c)
         guids = [WH.guid_str(rng.getrandbits(64)) for _ in range(nshot)]
         case.update(cfgs=cfgs, guids=guids, topmode=rng.choice(["none", "present"]), types=[rng.choice(["Compressed", "Compressed", "Plain"]) for _ in range(nshot)],
-                    fname=_word(rng, 20).replace("/", "_"), shuffle=rng.getrandbits(8))
+                    fname="".join(ch for ch in _word(rng, 20).replace("/", "_") if ord(ch) >= 32), shuffle=rng.getrandbits(8))
     return case
 
 
